@@ -714,6 +714,9 @@ func (u *Unit) callSiteClauses(ev *Ev, ord string, names []string, args []Value,
 		for i, n := range names {
 			if i < len(args) && n != "" && n != "_" {
 				sev.binds["arg_"+n] = args[i]
+			} else if i >= len(args) && i == len(names)-1 && n != "" && n != "_" {
+				// a variadic parameter that received nothing: the empty slice
+				sev.binds["arg_"+n] = Value{K: vSlice, Comp: map[string]Value{"#arr": scalar("nil", SRef, nil), "#len": intV("0")}}
 			}
 		}
 		for i, a := range args {
@@ -921,7 +924,15 @@ func (u *Unit) applyContract(ev *Ev, c *Contract, sig *types.Signature, recv *Va
 		}
 	}
 	if !pureUse {
-		u.callSiteClauses(ev, ord, pnames, args, recv)
+		csArgs := args
+		if sig.Variadic() && len(pnames) > 0 {
+			// call-site clauses see the variadic parameter as the callee does: one slice (empty when nothing was passed)
+			last := len(pnames) - 1
+			if pv, ok := binds[pnames[last]]; ok && pv.K == vSlice && !(len(args) == len(pnames) && args[last].K == vSlice) {
+				csArgs = append(append([]Value(nil), args[:min(last, len(args))]...), pv)
+			}
+		}
+		u.callSiteClauses(ev, ord, pnames, csArgs, recv)
 	}
 	sev := &Ev{u: u, st: st, old: st, spec: true, binds: binds, pkg: cpkg, where: "contract " + c.Key}
 	// lets evaluated in pre-state
